@@ -93,15 +93,17 @@ type myRendered struct {
 	SQL    string
 	Params []pgprog.Val
 	PTypes []pgsess.ColType
+	Search []bool
 }
 
 func renderMySQL(c Case) myRendered {
 	var r myRendered
 	lt := c.Col.Logical()
 	tq, idq := c.quals()
-	param := func(v pgprog.Val, t pgsess.ColType) string {
+	param := func(v pgprog.Val, t pgsess.ColType, search bool) string {
 		r.Params = append(r.Params, v)
 		r.PTypes = append(r.PTypes, t)
+		r.Search = append(r.Search, search)
 		return "?"
 	}
 	var cond func(k Cond) string
@@ -112,7 +114,7 @@ func renderMySQL(c Case) myRendered {
 			if k.Form == "lit" {
 				val = myLiteral(k.Val, lt, k.Spell)
 			} else {
-				val = param(k.Val, lt)
+				val = param(k.Val, lt, true)
 			}
 			op := "="
 			if k.Neg {
@@ -138,7 +140,7 @@ func renderMySQL(c Case) myRendered {
 			var val string
 			switch {
 			case k.PForm != "":
-				val = param(pgprog.Val{B: []byte(k.Arg)}, t)
+				val = param(pgprog.Val{B: []byte(k.Arg)}, t, false)
 			case t == pgsess.Int4:
 				val = k.Arg
 			default:
@@ -562,6 +564,14 @@ func CheckRewriteMySQL(c Case) (vs hx.Vs) {
 			break
 		}
 	}
+	if v := clearInts(c, []byte(outSQL)); v != nil {
+		vs.Add(sig("search-term-in-clear"), "the emitted statement holds the searched integer %s: %.300s", v, outSQL)
+	}
+	for i, p := range params {
+		if r.Search[i] && isInt(r.PTypes[i]) && p != nil && bytes.Equal(p, r.Params[i].B) {
+			vs.Add(sig("search-term-in-clear"), "parameter %d still holds the searched integer %s", i+1, p)
+		}
+	}
 	got, err := runMySQL(c, outSQL, params, trows, urows)
 	if err != nil {
 		vs.Add(sig("emitted-statement-rejected"), "%.300s: %v", outSQL, err)
@@ -583,7 +593,7 @@ func CheckRewriteMySQL(c Case) (vs hx.Vs) {
 
 func TestRewriteMySQL(t *testing.T) {
 	R.Rule("TestRewriteMySQL", "as TestRewritePG with the MySQL dialect: literals as '..', \"..\", X'..', 0x.., decimal; placeholders ?; HashQuery.OnQuery on the statement object, OnBind on the same (mutated) syntax tree as the proxy does; the emitted text is re-parsed with acra's sqlparser and evaluated by a small literal evaluator (AND/OR/NOT in three-valued logic, substr/convert, hex literals, join on a plain column) over the values the write side stored. Same oracle and non-trivial rule")
-	hx.Checks(100, 1000)
+	hx.Checks(100, 6000)
 	rapid.Check(t, func(rt *rapid.T) {
 		c := genCase(rt, genOpts{mysql: true})
 		vs := CheckRewriteMySQL(c)
